@@ -108,8 +108,29 @@ def main(argv):
                         res, handled = r, True
                         break
         if not handled:
-            print(f"no replay handler for check={chk!r}; the file holds the literal failing case:\n" + json.dumps(d, indent=1, default=str)[:3000])
-            return 2
+            # universal fallback: every check is deterministic for (tier, seed); re-run the property's check with
+            # the recorded seed and tier and see whether a violation with the same target and kind of check reappears
+            import subprocess, glob, os
+            prop = d.get("property")
+            print(f"no specific replay handler for check={chk!r}: re-running ./check {prop} --tier {d.get('tier', 'quick')} --seed {d.get('seed', 0)} ...")
+            root = os.path.dirname(os.path.dirname(os.path.abspath(__file__)))
+            r = subprocess.run([os.path.join(root, "check"), prop, "--tier", str(d.get("tier", "quick")), "--seed", str(d.get("seed", 0))],
+                               capture_output=True, text=True)
+            hit = None
+            for ln in r.stdout.splitlines():
+                if ln.startswith("VIOLATION") and "replay=" in ln:
+                    try:
+                        e = json.load(open(ln.split("replay=")[1].split()[0]))
+                    except Exception:
+                        continue
+                    if e.get("target") == d.get("target") and e.get("check") == d.get("check"):
+                        hit = e
+                        break
+            if hit:
+                print(f"REPRODUCED property={prop} target={d.get('target')}: {str(hit.get('observed') or hit.get('problem') or hit.get('broken'))[:500]}")
+                return 1
+            print("not reproduced on the current tree (the check was re-run with the recorded seed and tier)")
+            return 0
     if res:
         print(f"REPRODUCED property={d.get('property')} target={d.get('target')}: {res}")
         return 1
